@@ -92,7 +92,7 @@ def py_check(h):
   """returns (ok, symptom, detail) — mirrors check_history"""
   W, reqs, order, out, log = h['W'], h['reqs'], h['order'], h['out'], h['log']
   if h.get('exception'): return False, 'exception', h['exception']
-  cpl = h['complete']
+  cpl = True
   for p in range(len(reqs)):
     lp = [r for q, r in log if q == p]
     op = [c for q, c in order if q == p]
@@ -128,7 +128,7 @@ def case_term(h):
     coq_list([coq_list([req_t(r) for r in rs]) for rs in h['reqs']]),
     coq_list([f'(N {p}, {call_t(c)})' for p, c in h['order']]),
     coq_list([coq_list([resp_t(r) for r in rs]) for rs in h['out']]),
-    pr(h['img']), 'true' if h['complete'] else 'false',
+    pr(h['img']), 'true',      # complete: every request must have been serviced and answered (a lost request is a violation)
     coq_list([f'(N {p}, {req_t(r)})' for p, r in h['log']])]) + ')')
 
 # ----------------------------------------------------------------------------- driving the real memories
@@ -463,10 +463,6 @@ def run(ctx):
   ctx.extra['incomplete'] = sum(1 for h in live if not h['complete'])
   ctx.extra['requests_serviced'] = sum(len(h['log']) for h in hists)
   ctx.extra['interleaved_multiport'] = sum(1 for h in live if len({p for p, _ in h['log']}) > 1)
-  for i, h in enumerate(live):
-    if not h['complete'] and i not in badset:
-      ctx.note(f'{h["impl"]} history did not drain within the cycle cap (prefix form of the check used)')
-      break
 
   # ---- sub-word AMOs: their own class, kept out of the random streams
   for impl in ('CL', 'RTL'):
